@@ -45,6 +45,28 @@ class Sub:
         return max(1, int(math.ceil(n * scale)))
 
 
+def _guarded(check):
+    """The oracle wraps library calls with build.lib(); this is the safety net for the calls it makes
+    directly: an exception whose innermost frame lies inside the repository's package, raised on an
+    input inside the property's domain, is a violation (clause 'library-exception'), not a harness error.
+    Exceptions raised in harness code stay harness errors."""
+    def run(case):
+        try:
+            return check(case)
+        except (PropertyViolation, HarnessError):
+            raise
+        except Exception as exc:      # noqa: BLE001
+            tb = traceback.extract_tb(exc.__traceback__)
+            root = env.REPO + os.sep + "gaddlemaps" + os.sep
+            if tb and tb[-1].filename.startswith(root):
+                fr = tb[-1]
+                raise PropertyViolation("library-exception", "library raised %s: %s at %s:%d"
+                                        % (type(exc).__name__, str(exc)[:300], fr.filename[len(root):], fr.lineno),
+                                        cls="library-exception:%s" % type(exc).__name__)
+            raise
+    return run
+
+
 def _sub_seed(seed, sub_name, shard):
     return (int(seed) * 1000003 + zlib.crc32(sub_name.encode()) * 101 + shard) % (2 ** 63)
 
@@ -66,7 +88,7 @@ def _run_hypothesis_shard(sub, tier, seed, shard, n_cases):
         last["case"] = case
         rec.evaluations += 1
         try:
-            info = sub.check(case)
+            info = _guarded(sub.check)(case)
         except PropertyViolation as exc:
             seen.append((len(canon(case)), exc, case))
             raise
@@ -113,7 +135,7 @@ def _run_enum_shard(sub, tier, seed, shard, nshards):
         rec.evaluations += 1
         try:
             try:
-                info = sub.check(case)
+                info = _guarded(sub.check)(case)
             finally:
                 env.clean_proc_tmp()
         except PropertyViolation as exc:
@@ -206,7 +228,7 @@ def run_regress(mod, prop):
         n += 1
         try:
             try:
-                sub[0].check(body["case"])
+                _guarded(sub[0].check)(body["case"])
             finally:
                 env.clean_proc_tmp()
         except PropertyViolation as exc:
@@ -375,7 +397,7 @@ def replay(mod_name, path):
     env.make_base_tmp()
     try:
         try:
-            sub[0].check(body["case"])
+            _guarded(sub[0].check)(body["case"])
         except PropertyViolation as exc:
             sys.stderr.write("replay %s: %s: %s\n" % (path, exc.clause, exc.message[:2000]))
             print("VIOLATION property=%s replay=%s" % (mod.PROPERTY, path))
